@@ -97,9 +97,9 @@ def run(ck, prog):
             firsts = [t for t in tests if (t["src_callee"] or "").endswith("::first")]
             ok = False
             for t in firsts:
-                p2 = cfg.path_exists(b, t["some_target"], lambda x: b.term(x)["k"] == "return", avoid=sets, include_src=True)
-                other_tests = [x for x in tests if x is not t]
-                if p2 is None and t["bb"] in cfg.dominators(b).get(min(sets), ()):  # noqa
+                # every path that avoids the store must go through the "no content change" edge
+                p2 = cfg.path_exists(b, 0, lambda x: b.term(x)["k"] == "return", avoid=sets | {t["none_target"]}, include_src=True)
+                if p2 is None:
                     ok = True
                     detail = "skipped only when the notification carries no content change"
         ck.ob("R12.2", "stored:%s" % fn.rsplit("::", 1)[-1], ok, detail,
